@@ -668,6 +668,9 @@ func valuesInRemovalOrder(c *Ctx, ct *types.Named, fn *ssa.Function, popEnd stri
 		if t.Op == "len" && isListValues(t.Args[0]) {
 			return linAtom("S") // the inner list's Values() has length Size() (R12f)
 		}
+		if t.Op == "len" && t.Args[0].Op == "makeslice" && len(t.Args[0].Args) == 2 {
+			return ev(t.Args[0].Args[0]) // len(make([]T, n, _)) = n
+		}
 		switch {
 		case t.Op == "φ":
 			return linAtom("φ" + t.Leaf)
